@@ -17,7 +17,7 @@ import numpy as np
 
 import sim  # noqa: F401
 from sim import build
-from sim.core import attempt, exc_tag
+from sim.core import attempt, bulk_tier, exc_tag
 from sim.oracle import chaos
 
 PROPERTY = "C14"
@@ -46,15 +46,22 @@ ASSUMPTIONS = [
 
 
 def generate(rng, seed, part):
-    axis = build.gen_axis(rng, max_bins=6, allow_gaps=False, families=["static", "numpy", "fixed", "exp"])
+    bulk = bulk_tier(rng)
+    axis = build.gen_axis(rng, max_bins=6 if not bulk else rng.choice([6, 80, 200]), allow_gaps=False,
+                          families=["static", "numpy", "fixed", "exp"])
     pool = build.axis_pool(build.spec_bins(axis))
-    wkind = rng.choice(build.WEIGHT_KINDS)
+    # "const": explicit weights that are all the same (not 1)
+    wkind = rng.choice(build.WEIGHT_KINDS + ["const"])
+    const_w = rng.choice([2.5, 3, 0.5, 7.0])
     n = rng.choice([0, 1, 2, 4, 8, 16, 30])
-    entries = [[build.draw_value(rng, pool, inside_only=True), build.draw_weight(rng, wkind)] for _ in range(n)]
+    if bulk:
+        n = rng.choice([2500, 6000])  # delivered in batches of thousands
+    entries = [[build.draw_value(rng, pool, inside_only=True),
+                const_w if wkind == "const" else build.draw_weight(rng, wkind)] for _ in range(n)]
     if n > 3 and rng.random() < 0.3:
         for _ in range(3):
             entries[rng.randrange(n)] = list(entries[rng.randrange(n)])
-    cfg = {"axis": axis, "weights": wkind, "dtype": build.pick_dtype(rng, wkind),
+    cfg = {"axis": axis, "weights": wkind, "dtype": build.pick_dtype(rng, "float" if wkind == "const" else wkind),
            "vtype": rng.choice(["f64", "f64", "f32", "f16"])}
     if cfg["vtype"] != "f64":
         # values representable in the narrow float type: they may be handed over as float32/float16 arrays
@@ -91,11 +98,13 @@ def generate(rng, seed, part):
             rest = share
         j = 0
         while j < len(rest):
-            if rng.random() < 0.5:
+            if rng.random() < (0.5 if not bulk else 0.01):
                 ops.append({"op": "fill", "n": nodes, "i": rest[j]})
                 j += 1
             else:
                 m = rng.randint(1, min(8, len(rest) - j))
+                if bulk:
+                    m = min(len(rest) - j, rng.choice([50, 2048, 3000, len(rest)]))
                 op = {"op": "fill_n", "n": nodes, "idx": rest[j:j + m], "cont": rng.choice(conts)}
                 if rng.random() < 0.2:
                     op["nan_at"] = rng.randrange(m + 1)
